@@ -637,6 +637,9 @@ pub struct Recv {
     pub seen: Vec<Vec<Rec>>,
     pub updates: usize,
     pub diffs: Vec<InMemoryZoneDiff>,
+    /// the message the receiving side stopped at (0-based), and how many answer records the first message had
+    pub stopped_at: usize,
+    pub first_message_records: usize,
 }
 
 fn mk_query(apex: &[u8], qtype: u16, id: u16, serial: u32) -> Message<Vec<u8>> {
@@ -675,6 +678,10 @@ async fn receive_async(zone: &Zone, query: &Message<Vec<u8>>, msgs: &[Vec<u8>], 
     };
     sample(zone, &mut out.seen);
     'outer: for (i, m) in msgs.iter().enumerate() {
+        out.stopped_at = i;
+        if i == 0 && m.len() >= 12 {
+            out.first_message_records = u16::from_be_bytes([m[6], m[7]]) as usize;
+        }
         let resp = match Message::from_octets(Bytes::copy_from_slice(m)) {
             Ok(r) => r,
             Err(_) => {
@@ -1200,7 +1207,8 @@ fn judge(k: &mut Case, label: &str, kind: &str, recv: &Recv, refo: &RefOut, pre:
         k.c.count("transfers_accepted", 1);
     } else {
         if fault.is_none() {
-            let single = recv.error.as_deref().map(|e| e.contains("SingleSoaIxfrTcpRetrySignal")).unwrap_or(false);
+            // (the recorded finding: the retry signal at the end of a FIRST message that holds nothing but the opening SOA)
+            let single = recv.error.as_deref().map(|e| e.contains("SingleSoaIxfrTcpRetrySignal")).unwrap_or(false) && recv.stopped_at == 0 && recv.first_message_records == 1;
             let sig = if single { format!("rejected-legal-stream:{}:first-message-holds-only-the-soa", kind) } else { format!("rejected-legal-stream:{}", kind) };
             k.viol(&sig, &format!("{}: a legal {} stream was rejected: {:?}", label, kind, recv.error));
             return false;
